@@ -781,12 +781,12 @@ theorem matchToks_lits (lits p : Bytes) : matchToks (lits.map Tok.lit) p = true 
 
 /-! ### totals -/
 
-theorem shown_of_nodup (rep : List Rec) (h : (rep.map (·.rel)).Nodup) : shown rep = rep := by
+theorem shown_of_nodup (rep : List Rec) (h : (rep.map Rec.treePath).Nodup) : shown rep = rep := by
   induction rep with
   | nil => rfl
   | cons r rest ih =>
     simp only [List.map_cons, List.nodup_cons] at h
-    have hno : rest.any (fun r' => decide (r'.rel = r.rel)) = false := by
+    have hno : rest.any (fun r' => decide (r'.treePath = r.treePath)) = false := by
       rw [Bool.eq_false_iff]
       intro hany
       obtain ⟨r', hr', e⟩ := List.any_eq_true.1 hany
